@@ -17,7 +17,7 @@ quality of sensitivity D: eps_eff = 2*c*D (c*D under `monotonic`), charged eps_e
 import ast
 
 from .symexec import SymExec, Opaque
-from ..srcmodel import AnalysisError, U, kwarg, target_names
+from ..srcmodel import clone, AnalysisError, U, kwarg, target_names
 from ..symexpr import Alg, Rat, Atoms, sym, const
 
 MAX_DEPTH = 10
@@ -480,7 +480,7 @@ class CostExec(SymExec):
                         return defs[node.id]
                     return node
             import copy
-            cur = Sub().visit(copy.deepcopy(cur)) if False else self._subst(cur, {n.id: defs[n.id] for n in names})
+            cur = Sub().visit(clone(cur)) if False else self._subst(cur, {n.id: defs[n.id] for n in names})
             v = SymExec.value(self, cur)
             if isinstance(v, Alg):
                 return v
@@ -489,12 +489,12 @@ class CostExec(SymExec):
     @staticmethod
     def _subst(expr, mapping):
         import copy
-        tree = copy.deepcopy(expr)
+        tree = clone(expr)
 
         class Sub(ast.NodeTransformer):
             def visit_Name(self, node):
                 if node.id in mapping and isinstance(node.ctx, ast.Load):
-                    return copy.deepcopy(mapping[node.id])
+                    return clone(mapping[node.id])
                 return node
         return Sub().visit(tree)
 
